@@ -61,6 +61,19 @@ def oracle(case, ctx, label=True):
             return ctx.fail("inner/column-names", f"got {res.column_names()} want {names}")
     if R.snapshot_table(lt) != snap_l or R.snapshot_table(rt) != snap_r:
         return ctx.fail("inner/input-modified", "an input table changed during inner_join")
+    # every expectation the keys satisfy gives the very same result (the pairs do not depend on what the caller expects)
+    lu_ = all(lkeys[i] != lkeys[j] for i in range(len(lkeys)) for j in range(i + 1, len(lkeys)))
+    ru_ = all(rkeys[i] != rkeys[j] for i in range(len(rkeys)) for j in range(i + 1, len(rkeys)))
+    for ex_, (nl_, nr_) in (("one_to_one", (True, True)), ("many_to_one", (False, True)), ("one_to_many", (True, False))):
+        if (nl_ and not lu_) or (nr_ and not ru_):
+            continue
+        ctx.ev()
+        try:
+            rx = lt.inner_join(rt, lon, ron, expect=ex_)
+        except Exception as e:  # noqa: BLE001
+            return ctx.fail(f"inner/{ex_}/raised-although-the-expectation-holds/{type(e).__name__}", f"left keys {lkeys} right keys {rkeys}: {e}")
+        if R.frozen_rows(R.cells(rx)) != want:
+            return ctx.fail(f"inner/{ex_}/rows-differ-from-the-key-equal-pairs", f"left keys {lkeys} right keys {rkeys}: got {R.cells(rx)} want {want}")
     for side_, arg, was in (("left_on", lon, args_before[0]), ("right_on", ron, args_before[1])):
         if was is not None and (len(arg) != len(was) or any(x is not y for x, y in zip(arg, was))):
             return ctx.fail("inner/key-list-argument-modified", f"the {side_} list the caller passed was rewritten by the join: {was} -> {arg}")
